@@ -3,6 +3,8 @@
 # Analyses /repo's current working tree (nothing is cached between runs) and rewrites
 # /verif/evidence/<Cxx>.json. Exit 0 = all rule instances hold (known findings are printed),
 # 1 = VIOLATION lines printed, 2 = ANALYSIS-BROKEN (no verdict).
+# thorough = quick's rules + exact path counts per gate, CHA call-graph cross-check of the effect sets,
+# and the mutation-sensitivity audit of the rule set (tools/audit.py) on scratch copies of the tree.
 cd "$(dirname "$0")"
 unset GOTOOLCHAIN GOSUMDB GOWORK
 export GOFLAGS=-mod=mod GOPROXY=off GOWORK=off
@@ -10,4 +12,9 @@ prop="$1"; tier="${2:-${VERIF_TIER:-quick}}"
 if [ ! -x bin/mysyncsa ] || [ -n "$(find checker -name '*.go' -newer bin/mysyncsa -not -path '*/vendor/*' | head -1)" ]; then
   ./setup.sh >/dev/null || { echo "ANALYSIS-BROKEN property=$prop checker does not build"; exit 2; }
 fi
-exec bin/mysyncsa check -tier "$tier" "$prop"
+bin/mysyncsa check -tier "$tier" "$prop"
+rc=$?
+if [ "$tier" = "thorough" ] && [ $rc -ne 2 ]; then
+  python3 tools/audit.py "$prop" || echo "note: mutation audit could not run (verdict unaffected)"
+fi
+exit $rc
